@@ -76,12 +76,24 @@ func (s *generateState) generateType(t schema.Type, selections []ast.Selection, 
 	case *schema.EnumType:
 		if _, ok := s.outputEnums[t.Name]; !ok {
 			s.output += "type " + t.Name + " string\n\nconst (\n"
+			values := make([]string, 0, len(t.Values))
 			for k := range t.Values {
+				values = append(values, k)
+			}
+			sort.Strings(values)
+			used := map[string]struct{}{t.Name: {}}
+			for _, k := range values {
 				parts := strings.Split(k, "_")
 				for i, part := range parts {
 					parts[i] = strings.Title(strings.ToLower(part))
 				}
-				s.output += t.Name + strings.Join(parts, "") + " " + t.Name + " = \"" + k + "\"\n"
+				name := t.Name + strings.Join(parts, "")
+				if _, ok := used[name]; ok {
+					// values such as RED and red share a camel-cased name: keep the value's own spelling
+					name = t.Name + "_" + k
+				}
+				used[name] = struct{}{}
+				s.output += name + " " + t.Name + " = \"" + k + "\"\n"
 			}
 			s.output += ")\n\n"
 			s.outputEnums[t.Name] = struct{}{}
